@@ -33,6 +33,10 @@ structure St where
   /-- the builder line answered last (its tokens) and what the builder returned: `buildp X` right
   after `build X` asks for the same pure function of the same state (reset by `begin` / `sa`) -/
   memo : Option (List String × Except Err Patch) := none
+  /-- `suffix sa old new` of this case for the suffix-array token answered last: `suffixBlk m sa old new`
+  IS `suffix sa old new` for every `m` (by definition), so `build suffixb <m> <sa>` lines evaluate the
+  same value once per case (reset by `begin` / `sa`) -/
+  sfx : Option (String × Except Err Patch) := none
 
 /-! big byte strings in responses: length + FNV-1a 64 -/
 
@@ -123,14 +127,28 @@ def buildB (st : St) (r : Except Err Patch) : St × String :=
 def saTok (st : St) (t : String) : Option (Array Nat) :=
   if t == "@sa" then st.sa else parseSa t
 
+/-- `suffix a old new` (= `suffixBlk m a old new` for every `m`), evaluated once per case and
+suffix-array token. -/
+def suffixOnce (st : St) (saTxt : String) (a : Array Nat) : Except Err Patch :=
+  match st.sfx with
+  | some (k, r) => if k == saTxt then r else suffix a st.old st.new
+  | none => suffix a st.old st.new
+
+/-- the state remembers the suffix builder's answer. -/
+def noteSfx (st : St) (key : List String) (r : Except Err Patch) : St :=
+  match key with
+  | ["suffix", sa] => { st with sfx := some (sa, r) }
+  | ["suffixb", _, sa] => { st with sfx := some (sa, r) }
+  | _ => st
+
 /-- the builder named by the tokens after `build` / `buildp`: (its tokens, the call, the rest of the line). -/
 def builderOf (st : St) : List String → Option (List String × (Unit → Except Err Patch) × List String)
   | "simple" :: rest => some (["simple"], fun _ => simple st.new, rest)
   | "chunked" :: blk :: rest => blk.toNat?.map fun b => (["chunked", blk], fun _ => chunked b st.old st.new, rest)
-  | "suffix" :: sa :: rest => (saTok st sa).map fun a => (["suffix", sa], fun _ => suffix a st.old st.new, rest)
+  | "suffix" :: sa :: rest => (saTok st sa).map fun a => (["suffix", sa], fun _ => suffixOnce st sa a, rest)
   | "suffixb" :: blk :: sa :: rest =>
     match blk.toNat?, saTok st sa with
-    | some b, some a => some (["suffixb", blk, sa], fun _ => suffixBlk b a st.old st.new, rest)
+    | some _, some a => some (["suffixb", blk, sa], fun _ => suffixOnce st sa a, rest)
     | _, _ => none
   | _ => none
 
@@ -163,13 +181,13 @@ def handle (st : St) : List String → St × String
     | _, _ => (st, "bad-op")
   | ["sa", sa] =>
     match parseSa sa with
-    | some sa => ({ st with sa := some sa, memo := none }, "ok")
+    | some sa => ({ st with sa := some sa, memo := none, sfx := none }, "ok")
     | none => (st, "bad-op")
   | "build" :: rest =>
     match builderOf st rest with
     | some (key, f, []) =>
       let r := built st key f
-      buildB { st with memo := some (key, r) } r
+      buildB (noteSfx { st with memo := some (key, r) } key r) r
     | _ => (st, "bad-op")
   | "buildp" :: rest =>
     match builderOf st rest with
@@ -177,7 +195,7 @@ def handle (st : St) : List String → St × String
       match parsePairs st tbl with
       | some t =>
         let r := built st key f
-        buildP { st with memo := some (key, r) } t r
+        buildP (noteSfx { st with memo := some (key, r) } key r) t r
       | none => (st, "bad-op")
     | none => (st, "bad-op")
   | ["apply", "mem", c, d, e, out] =>
